@@ -58,7 +58,7 @@
    are explicit.  The environment decides EnoughPeers, the outcomes of service calls, context cancellations and
    shutdown.  Time is abstract here (a timer may fire at any moment; `nxt` only records which delay an advertiser
    sleeps on); DiscoveryTrace.tla checks the exact instants on recorded runs, with the pure operators of the
-   section MEANING below.  Named deviations (constants Dev...):
+   module DiscoveryMeaning (delays, constants of the code, the EnoughPeers relations).  Named deviations (constants Dev...):
        DevIgnoreBootstrapResult (AS FOUND)  Topic.validate drops the result of Bootstrap and goes on to publish;
        SvcZeroTTL               the service may answer (0, nil): assumption of X06.b violated -> hot loop;
        DevStopIgnoresRelay, DevNoCancel, DevNoAdvGuard, DevNoDedup, DevNoOngoingDelete, DevPollIgnoresEnough,
@@ -66,28 +66,12 @@
    DELIBERATE ABSTRACTIONS: the connector (X06.d) and the options are not modelled here (pure operators below, used
    by the trace specification); a cancelled advertiser is a counter (zomb); Subscribe's Discover call and the event
    loop's handling of the subscription are separate actions (ApiDiscover, Sub).                                *)
-EXTENDS Naturals, Sequences, FiniteSets, TLC
+EXTENDS DiscoveryMeaning, Naturals, Sequences, FiniteSets, TLC
 
 CONSTANTS Topics, MaxRef, QCap, Callers,
           Parts,     \* which parts of the pipeline the environment exercises: subset of {"adv", "poll", "api", "boot"} (keeps the exhaustive runs small)
           DevStopIgnoresRelay, DevNoCancel, DevNoAdvGuard, DevNoDedup, DevNoOngoingDelete, DevPollIgnoresEnough,
           DevIgnoreBootstrapResult, DevUnbufferedDone, DevBareSend, DevRetryZero, SvcZeroTTL
-
-(* ------------------------------------------------------------------ MEANING (pure; shared with DiscoveryTrace) *)
-RetryMs == 120000          \* discoveryAdvertiseRetryInterval
-FindTimeoutMs == 10000     \* handleDiscovery: context.WithTimeout(ctx, 10 s)
-BootSleepMs == 100         \* Bootstrap: t.Reset(100 ms)
-NoDiscTickMs == 200        \* Topic.validate without discovery: 200 ms ticker
-Prefix == "floodsub:"
-
-\* delay before the next Advertise call, from what the previous one returned
-NextAdvDelay(ttl, failed) == IF failed /\ ttl = 0 THEN RetryMs ELSE ttl
-
-Or0(n, dflt) == IF n = 0 THEN dflt ELSE n
-\* has: somebody announced the topic (p.topics has the key); fs / rs / mesh: counts
-EnoughFlood(has, n, sugg, floodSize) == has /\ n >= Or0(sugg, floodSize)
-EnoughRandom(has, fs, rs, sugg, d) == has /\ (fs + rs >= Or0(sugg, d) \/ rs >= d)
-EnoughGossip(has, fs, mesh, sugg, dlo, dhi) == has /\ (fs + mesh >= Or0(sugg, dlo) \/ mesh >= dhi)
 
 (* ------------------------------------------------------------------ MODEL *)
 VARIABLES alive,           \* the node's context is live
